@@ -451,7 +451,7 @@ const MAX_DHT_VALUE_SIZE: usize = 512;
 
 /// Maximum node count for FindNode requests
 /// Prevents amplification attacks by limiting response size
-const MAX_FIND_NODE_COUNT: usize = 20;
+pub(crate) const MAX_FIND_NODE_COUNT: usize = 20;
 
 /// Maximum pending DHT requests before evicting oldest (prevents memory DoS)
 const MAX_PENDING_DHT_REQUESTS: usize = 10_000;
